@@ -33,7 +33,7 @@ def push_tok():
 
 
 KEY_FORMS = ["c", "c", "c", "u", "u", "h", "hbad", "xgep", "off", "p05", "short", "empty"]
-SIG_VARIANTS = ["ok", "ok", "ok", "ok", "ok", "ok", "ok", "ok", "empty", "empty", "empty", "highs", "padr", "pads", "negr", "negs", "r0", "s0", "rn", "r33",
+SIG_VARIANTS = ["ok", "ok", "ok", "ok", "ok", "ok", "ok", "ok", "empty", "empty", "empty", "highs", "padr", "pads", "negr", "negs", "r0", "s0", "rn", "sn", "smax", "sn+low", "r33",
                 "seqlen+1", "seqlen-1", "longlen", "longrlen", "rlen82", "rlen83", "rlen84", "rlen87", "slen83", "slen84", "slen8c", "rlen84nz",
                 "slen85nz", "seq80", "seq83junk", "seq84", "trail", "pad520", "pad521", "notseq", "nohashtype", "empty", "wrongkey",
                 "wrongmsg", "s-lastlow", "s-firsthigh", "s-halfp"]
